@@ -128,6 +128,7 @@ static inline uint64_t LBF(lost_rank)(LB_C o, const LB_C *n)
     return MAXCAP;
 }
 static inline bool LBF(has_o)(LB_C o, uint64_t k) { return LBF(has)(&o, k); }
+static inline uint64_t LBF(cap_o)(LB_C o) { return LBF(cap)(&o); }
 static inline uint64_t LBF(key_of_node_o)(LB_C o, cstl_iter n) { return LBF(key_of_node)(&o, n); }
 static inline uint64_t LBF(entry_key_o)(LB_C o, cstl_iter kp) { return LBF(entry_key)(&o, kp); }
 static inline LBF(vw) LBF(view_o)(LB_C o, uint64_t k) { return LBF(view)(&o, k); }
